@@ -102,6 +102,15 @@ pub fn record(case: &Case) -> Result<Recorded, String> {
                 let val = make_value(rec.counter, *v);
                 apply_write(d, &fs, &mut rec, &mut model, vec![(key(*s), Some(val))])?;
             }
+            Op::PutTail(s, r) => {
+                let k = key(*s);
+                let path = format!("db/wal/wal-{}.log", d.verif_state().db_wal_number);
+                let size = fs.read_file(&path).map_or(0, |f| f.len() as u64);
+                let len = tail_value_len(size, k.len(), *r).unwrap_or(40);
+                rec.counter += 1;
+                let val = make_value(rec.counter, Val { len, compressible: false });
+                apply_write(d, &fs, &mut rec, &mut model, vec![(k, Some(val))])?;
+            }
             Op::Delete(s) => {
                 apply_write(d, &fs, &mut rec, &mut model, vec![(key(*s), None)])?;
             }
